@@ -129,6 +129,19 @@ ExpParamsFrom(m, i) ==
                   ELSE ExpParamsFrom(m, i + 1)
 ExpParams(m) == ExpParamsFrom(m, 1)
 
+\* how a handler binds its arguments (C05): every parameter in signature order with its source, wire name, type and requiredness
+BindParams(m) ==
+    [i \in DOMAIN m.sig |->
+        LET s == m.sig[i] as == AnnFor(m, s.name) IN
+        IF IsContext(s.type) THEN [name |-> s.name, in |-> "ctx", wire |-> "", type |-> s.type, required |-> FALSE, validate |-> ""]
+        ELSE IF as = {} THEN [name |-> s.name, in |-> "?", wire |-> "", type |-> s.type, required |-> FALSE, validate |-> ""]
+        ELSE LET a == CHOOSE x \in as : TRUE IN
+             [name |-> s.name, in |-> InOf(a.kind), wire |-> WireName(a), type |-> s.type, required |-> RequiredParam(s, a), validate |-> a.validate]]
+Handlers(p) ==
+    { [ctrl |-> CtrlOf(p, m).id, ctrlName |-> CtrlOf(p, m).name, pkg |-> CtrlOf(p, m).pkg, method |-> m.name, verb |-> m.verb, path |-> NormPath(CtrlOf(p, m), m),
+       hidden |-> m.hidden, alts |-> EffectiveSecurity(p.cfg, CtrlOf(p, m), m), params |-> BindParams(m), returnsValue |-> (Len(m.ret) = 2)]
+        : m \in {x \in Range(p.methods) : IsApi(x)} }
+
 ExpBody(m) ==
     LET bs == {i \in DOMAIN m.sig : \E a \in AnnFor(m, m.sig[i].name) : a.kind = "Body"}
         fs == {i \in DOMAIN m.sig : \E a \in AnnFor(m, m.sig[i].name) : a.kind = "FormField"}
